@@ -371,3 +371,99 @@ Section RoundTrip.
         repeat split; assumption.
   Qed.
 End RoundTrip.
+
+(** * the leaf-spill case: image layout *)
+Lemma write_at_mid (a junk bs : bytes) : write_at (a ++ junk) (nlen a) bs = a ++ bs ++ skipn (length bs) junk.
+Proof.
+  unfold write_at, nlen. rewrite Nat2N.id.
+  assert (E : pad_to (length a) (a ++ junk) = a ++ junk).
+  { unfold pad_to. rewrite app_length. replace (length a - (length a + length junk))%nat with 0%nat by lia. cbn. apply app_nil_r. }
+  rewrite E, (firstn_exact a junk _ eq_refl). f_equal. f_equal.
+  rewrite <- skipn_skipn'. now rewrite (skipn_exact a junk _ eq_refl).
+Qed.
+
+(** the image behind the 127-byte hole, now allowing stale bytes after the content written so far *)
+Definition building' (st : wstream) (X : bytes) : Prop :=
+  ws_pos st = 127 + nlen X /\ ((ws_img st = [] /\ X = []) \/ exists junk, ws_img st = repeat 0 127 ++ X ++ junk).
+
+Lemma building'_write st X bs : building' st X -> building' (ws_write st bs) (X ++ bs).
+Proof.
+  intros [Hp Hi]. split; [rewrite ws_write_pos, Hp; unfold nlen; rewrite app_length; lia|].
+  destruct bs as [|b0 br] eqn:Eb; [rewrite app_nil_r; exact Hi|]. rewrite <- Eb. right.
+  destruct Hi as [[Hi ->]|(junk & Hi)].
+  - exists []. unfold ws_write, ws_write_gen. rewrite Eb. cbn [ws_img]. rewrite Hi, Hp. cbn [nlen length app]. rewrite N.add_0_r.
+    rewrite write_at_fresh, app_nil_r. reflexivity.
+  - exists (skipn (length bs) junk). unfold ws_write, ws_write_gen. rewrite Eb. rewrite <- Eb. cbn [ws_img].
+    rewrite Hi, Hp. replace (repeat 0 127 ++ X ++ junk) with ((repeat 0 127 ++ X) ++ junk) by now rewrite <- app_assoc.
+    replace (127 + nlen X) with (nlen (repeat 0 127 ++ X)) by (unfold nlen; rewrite app_length, repeat_length; lia).
+    rewrite write_at_mid. now rewrite <- !app_assoc.
+Qed.
+Lemma building'_same st st' X : ws_img st' = ws_img st -> ws_pos st' = ws_pos st -> building' st X -> building' st' X.
+Proof. intros Hi Hp [A B]. split; [now rewrite Hp|now rewrite Hi]. Qed.
+(** seeking back to the start of the root directory: what was written becomes stale *)
+Lemma building'_reset st X : building' st X -> building' (ws_seek st 127) [].
+Proof.
+  intros [Hp Hi]. split; [reflexivity|]. cbn [ws_seek ws_img]. destruct Hi as [[Hi ->]|(junk & Hi)]; [left; auto|].
+  right. exists (X ++ junk). exact Hi.
+Qed.
+Lemma building'_header st X hb : building' st X -> length hb = 127%nat ->
+  exists junk, ws_img (ws_write (ws_seek st 0) hb) = hb ++ X ++ junk.
+Proof.
+  intros [Hp Hi] Hl. unfold ws_write, ws_write_gen. destruct hb as [|h0 hr] eqn:Eh; [discriminate|]. rewrite <- Eh in *.
+  cbn [ws_seek ws_img ws_pos]. destruct Hi as [[Hi ->]|(junk & Hi)]; rewrite Hi.
+  - exists []. rewrite write_at_fresh. cbn [app]. now rewrite app_nil_r.
+  - exists junk. apply write_at_front. now rewrite repeat_length.
+Qed.
+
+Section SpillLayout.
+  Context (cx : ctx).
+
+  Lemma write_dir_building asy c es st X st' n : building' st X -> write_dir cx asy c es st = Ok (st', n) ->
+    exists z, encode_dir cx asy c es = Ok z /\ building' st' (X ++ z).
+  Proof.
+    intros HB H. destruct (write_dir_spec cx asy c es st st' n H) as (z & Hz & _ & Hi & Hp).
+    exists z. split; [exact Hz|]. apply (building'_same (ws_write st z)); [exact Hi|now rewrite Hp, ws_write_pos|]. now apply building'_write.
+  Qed.
+
+  Lemma leaf_loop_building asy c es : forall fuel ls st X st' ld, building' st X ->
+    leaf_loop cx fuel asy c es ls st 127 = Ok (st', ld) ->
+    exists (k : nat) blobs ptrs root,
+      (1 <= k)%nat /\ leaves_spec cx c (chunks k es) 0 = Ok (blobs, ptrs) /\ ld = concat blobs /\
+      encode_dir cx asy c ptrs = Ok root /\ nlen root <= max_root_dir_length /\ building' st' root.
+  Proof.
+    induction fuel as [|f IH]; intros ls st X st' ld HB H; [discriminate|].
+    cbn [leaf_loop] in H. destruct (N.eqb_spec ls 0) as [|Hls]; [discriminate|].
+    rewrite build_leaves_spec in H. cbn [rev app] in H.
+    set (k := N.to_nat (N.min ls (N.max 1 (nlen es)))) in *.
+    destruct (leaves_spec cx c (chunks k es) 0) as [[blobs ptrs]| |] eqn:El; cbn [bind] in H; try discriminate.
+    destruct (write_dir cx asy c ptrs (ws_seek st 127)) as [[st2 n]| |] eqn:Ew; cbn [bind] in H; try discriminate.
+    destruct (write_dir_building asy c ptrs _ [] _ _ (building'_reset st X HB) Ew) as (root & Hroot & HB2). cbn [app] in HB2.
+    unfold ws_tell in H. cbn [ws_log_ev ws_pos] in H. destruct HB2 as [P2 I2]. rewrite P2 in H.
+    unfold sub64 in H. destruct (N.leb_spec 127 (127 + nlen root)); [|lia]. cbn [bind] in H.
+    replace (127 + nlen root - 127) with (nlen root) in H by lia.
+    destruct (N.leb_spec (nlen root) max_root_dir_length) as [Hfit|Hbig].
+    - inversion H; subst. exists k, blobs, ptrs, root. repeat split; try assumption; try reflexivity. unfold k. lia.
+    - destruct (2 * ls <? two64); [|discriminate].
+      eapply (IH _ _ root); [|exact H]. split; [exact P2|exact I2].
+  Qed.
+
+  Lemma write_directories_building asy c es st st' ld root0 : building' st [] ->
+    encode_dir cx asy c es = Ok root0 -> max_root_dir_length < nlen root0 ->
+    write_directories cx asy c es None st = Ok (st', ld) ->
+    exists (k : nat) blobs ptrs root,
+      (1 <= k)%nat /\ leaves_spec cx c (chunks k es) 0 = Ok (blobs, ptrs) /\ ld = concat blobs /\
+      encode_dir cx asy c ptrs = Ok root /\ nlen root <= max_root_dir_length /\ building' st' root.
+  Proof.
+    intros HB He Hbig H. unfold write_directories, ws_tell in H.
+    destruct (write_dir cx asy c es (ws_log_ev st EvPos)) as [[st1 n]| |] eqn:Ew; cbn [bind] in H; try discriminate.
+    assert (HB0 : building' (ws_log_ev st EvPos) []) by (destruct HB as [A B]; split; assumption).
+    destruct (write_dir_building asy c es _ [] _ _ HB0 Ew) as (z & Hz & HB1). cbn [app] in HB1.
+    rewrite He in Hz. injection Hz as <-.
+    destruct HB as [P0 _]. cbn [ws_log_ev ws_pos] in H. rewrite P0 in H. destruct HB1 as [P1 I1]. rewrite P1 in H.
+    change (127 + nlen []) with 127 in H. unfold sub64 in H.
+    destruct (N.leb_spec 127 (127 + nlen root0)); [|lia]. cbn [bind] in H.
+    replace (127 + nlen root0 - 127) with (nlen root0) in H by lia.
+    destruct (N.leb_spec (nlen root0) max_root_dir_length); [lia|].
+    eapply leaf_loop_building; [|exact H]. split; [exact P1|exact I1].
+  Qed.
+End SpillLayout.
